@@ -159,6 +159,8 @@ def run(ctx, rep):
     joins = [c for c in d.calls('thread_join')]
     removes = {}
     for name in ('scan_file_remove', 'scan_link_remove', 'scan_emptydir_remove'):
+        if not P.has(name):
+            raise AnalysisBroken('anchor function %s not found in program' % name)
         cs = list(d.calls(name))
         removes[name] = cs
         ok = len(cs) >= 1
@@ -219,6 +221,7 @@ def run(ctx, rep):
     from .C19 import inode_trust_rule
     inode_trust_rule(P, rep, 'R-C11-5')
     invalid_walk_rule(P, rep, 'R-C11-7')
+    hash_provenance_share(P, rep, 'R-C11-8')
     from .C18 import nofollow_probe_rule
     nofollow_probe_rule(P, rep, 'R-C11-6', ('dstat',), 'the scan of a data disk')
 
@@ -236,12 +239,12 @@ def need_write_rule(P, rep, rid):
                   function=fn, construct='need_write on every path')
 
 
-def invalid_walk_rule(P, rep, rid):
+def invalid_walk_rule(P, rep, rid, fname='parity_is_invalid', what='diff reports the array as fully synced'):
     """diff reports "an interrupted sync is pending" by walking every stripe; the walk must cover the whole allocated parity
     (parity_allocated_size), not only the part that already has valid parity (parity_used_size): stripes being synced for the first
     time lie exactly behind the used size"""
-    rep.rule(rid, 'parity_is_invalid walks 0 .. parity_allocated_size(): its loop bound does not derive from parity_used_size()', 1)
-    f = P.fn('parity_is_invalid')
+    rep.rule(rid, '%s walks 0 .. parity_allocated_size(): its loop bound does not derive from parity_used_size()' % fname, 1)
+    f = P.fn(fname)
     rep.analysed(f)
     src = set()
     for h in f.loops:
@@ -251,7 +254,15 @@ def invalid_walk_rule(P, rep, rid):
                 src |= {x for x in f.value_sources(t.ops[0]) if x[0] == 'call'}
     sizes = {x[1] for x in src if x[1].startswith('parity_') and x[1].endswith('_size')}
     if not sizes:
-        raise AnalysisBroken('parity_is_invalid: stripe loop bound not recognised (sources %s)' % sorted(src))
-    rep.check(sizes == {'parity_allocated_size'}, rid, 'parity_is_invalid: bound of the stripe walk', f.file,
-              'bound from %s' % sorted(sizes) if sizes == {'parity_allocated_size'} else 'the walk is bounded by %s: stripes behind the used parity (files added by an interrupted first sync) are never looked at and diff reports the array as fully synced' % sorted(sizes),
-              function='parity_is_invalid', construct='loop bound')
+        raise AnalysisBroken('%s: stripe loop bound not recognised (sources %s)' % (fname, sorted(src)))
+    rep.check(sizes == {'parity_allocated_size'}, rid, '%s: bound of the stripe walk' % fname, f.file,
+              'bound from %s' % sorted(sizes) if sizes == {'parity_allocated_size'} else 'the walk is bounded by %s: stripes behind the used parity (files added by an interrupted first sync) are never looked at and %s' % (sorted(sizes), what),
+              function=fname, construct='loop bound')
+
+
+def hash_provenance_share(P, rep, rid):
+    """C11 clause "a successful sync captures every change": sync skips the parity update of a block whose data matches its past
+    hash, so a hash that never described the parity (REP kept on deallocation) makes a successful sync leave stale parity"""
+    from .C05 import hash_provenance_rules
+    from .C06 import blk_value
+    hash_provenance_rules(P, rep, rid, blk_value(P))
